@@ -63,6 +63,7 @@ def run_case(case):
             own = [list(u) for u in c.get("own", [])]
             ns = {nm(tn): make_trait(spec, listenable=list(tn) not in unlisten)
                   for tn, spec in c["traits"] if list(tn) in own}
+            ns["__prefix__"] = nm(c["prefix"])
             if case.get("eq"):
                 ns.update(_plain_names=frozenset(nm(tn) for tn, spec in c["traits"] if spec[0] == "Normal"),
                           __eq__=_value_eq, __hash__=object.__hash__)
